@@ -39,18 +39,18 @@ using i128 = __int128;
 // ---- the implementation under test -------------------------------------------------------------
 namespace impl {
 #ifndef VH_STD
-template <class T> int popcount(T x) { return etl::popcount(x); }
-template <class T> int countl_zero(T x) { return etl::countl_zero(x); }
-template <class T> int countl_one(T x) { return etl::countl_one(x); }
-template <class T> int countr_zero(T x) { return etl::countr_zero(x); }
-template <class T> int countr_one(T x) { return etl::countr_one(x); }
-template <class T> int bit_width(T x) { return etl::bit_width(x); }
-template <class T> T bit_ceil(T x) { return etl::bit_ceil(x); }
-template <class T> T bit_floor(T x) { return etl::bit_floor(x); }
-template <class T> bool has_single_bit(T x) { return etl::has_single_bit(x); }
-template <class T> T byteswap(T x) { return etl::byteswap(x); }
-template <class T> T rotl(T x, int s) { return etl::rotl(x, s); }
-template <class T> T rotr(T x, int s) { return etl::rotr(x, s); }
+template <class T> constexpr int popcount(T x) { return etl::popcount(x); }
+template <class T> constexpr int countl_zero(T x) { return etl::countl_zero(x); }
+template <class T> constexpr int countl_one(T x) { return etl::countl_one(x); }
+template <class T> constexpr int countr_zero(T x) { return etl::countr_zero(x); }
+template <class T> constexpr int countr_one(T x) { return etl::countr_one(x); }
+template <class T> constexpr int bit_width(T x) { return etl::bit_width(x); }
+template <class T> constexpr T bit_ceil(T x) { return etl::bit_ceil(x); }
+template <class T> constexpr T bit_floor(T x) { return etl::bit_floor(x); }
+template <class T> constexpr bool has_single_bit(T x) { return etl::has_single_bit(x); }
+template <class T> constexpr T byteswap(T x) { return etl::byteswap(x); }
+template <class T> constexpr T rotl(T x, int s) { return etl::rotl(x, s); }
+template <class T> constexpr T rotr(T x, int s) { return etl::rotr(x, s); }
 template <class T> T set_bit(T x, T p) { return etl::set_bit(x, p); }
 template <class T> T set_bit(T x, T p, bool v) { return etl::set_bit(x, p, v); }
 template <class T> T reset_bit(T x, T p) { return etl::reset_bit(x, p); }
@@ -93,18 +93,18 @@ template <class T> T clamp128(i128 v)
     i128 const hi = std::numeric_limits<T>::max();
     return T(v < lo ? lo : (v > hi ? hi : v));
 }
-template <class T> int popcount(T x) { return std::popcount(x); }
-template <class T> int countl_zero(T x) { return std::countl_zero(x); }
-template <class T> int countl_one(T x) { return std::countl_one(x); }
-template <class T> int countr_zero(T x) { return std::countr_zero(x); }
-template <class T> int countr_one(T x) { return std::countr_one(x); }
-template <class T> int bit_width(T x) { return int(std::bit_width(x)); }
-template <class T> T bit_ceil(T x) { return std::bit_ceil(x); }
-template <class T> T bit_floor(T x) { return std::bit_floor(x); }
-template <class T> bool has_single_bit(T x) { return std::has_single_bit(x); }
-template <class T> T byteswap(T x) { return std::byteswap(x); }
-template <class T> T rotl(T x, int s) { return std::rotl(x, s); }
-template <class T> T rotr(T x, int s) { return std::rotr(x, s); }
+template <class T> constexpr int popcount(T x) { return std::popcount(x); }
+template <class T> constexpr int countl_zero(T x) { return std::countl_zero(x); }
+template <class T> constexpr int countl_one(T x) { return std::countl_one(x); }
+template <class T> constexpr int countr_zero(T x) { return std::countr_zero(x); }
+template <class T> constexpr int countr_one(T x) { return std::countr_one(x); }
+template <class T> constexpr int bit_width(T x) { return int(std::bit_width(x)); }
+template <class T> constexpr T bit_ceil(T x) { return std::bit_ceil(x); }
+template <class T> constexpr T bit_floor(T x) { return std::bit_floor(x); }
+template <class T> constexpr bool has_single_bit(T x) { return std::has_single_bit(x); }
+template <class T> constexpr T byteswap(T x) { return std::byteswap(x); }
+template <class T> constexpr T rotl(T x, int s) { return std::rotl(x, s); }
+template <class T> constexpr T rotr(T x, int s) { return std::rotr(x, s); }
 // etl-only helpers: the definition itself
 template <class T> T set_bit(T x, T p) { return T(x | T(T(1) << p)); }
 template <class T> T set_bit(T x, T p, bool v) { return T(T(x & T(~T(T(1) << p))) | T(T(v) << p)); }
@@ -343,6 +343,92 @@ template <class T> void ev_bits(T x)
     e.str("inst", tname<T>()).end();
 }
 
+// the same group evaluated by the compiler (is_constant_evaluated() selects the portable fallbacks in etl)
+struct BitsCE {
+    int popcount, clz, clo, ctz, cto, width;
+    bool single;
+    unsigned long long floor, ceil, bswap, rotl3, rotr5;
+};
+template <class T> constexpr BitsCE bits_ce(T x)
+{
+    BitsCE r {};
+    r.popcount = impl::popcount(x);
+    r.clz      = impl::countl_zero(x);
+    r.clo      = impl::countl_one(x);
+    r.ctz      = impl::countr_zero(x);
+    r.cto      = impl::countr_one(x);
+    r.width    = impl::bit_width(x);
+    r.single   = impl::has_single_bit(x);
+    r.floor    = impl::bit_floor(x);
+    r.ceil     = x <= T(T(1) << (sizeof(T) * 8 - 1)) ? impl::bit_ceil(x) : T(0);
+    r.bswap    = impl::byteswap(x);
+    r.rotl3    = impl::rotl(x, 3);
+    r.rotr5    = impl::rotr(x, -5);
+    return r;
+}
+template <class T> void emit_bits_ce(T x, BitsCE const& r)
+{
+    {
+        Ev e("bits");
+        e.type(Tag<T>{}).val("x", x);
+        e.num("popcount", r.popcount).num("clz", r.clz).num("clo", r.clo).num("ctz", r.ctz).num("cto", r.cto).num("width", r.width);
+        e.flag("single", r.single).val("floor", T(r.floor));
+        if (x <= T(T(1) << (sizeof(T) * 8 - 1))) { e.val("ceil", T(r.ceil)); }
+        e.str("form", "constexpr").str("inst", tname<T>()).end();
+    }
+    {
+        Ev e("bswap");
+        e.type(Tag<T>{}).val("x", x).val("ret", T(r.bswap)).str("form", "constexpr").str("inst", tname<T>()).end();
+    }
+    {
+        Ev e("rot");
+        e.type(Tag<T>{}).val("x", x).num("n", 3).val("rotl", T(r.rotl3)).val("rotr", impl::rotr(x, 3));
+        e.str("form", "constexpr").str("inst", tname<T>()).end();
+    }
+    {
+        Ev e("rot");
+        e.type(Tag<T>{}).val("x", x).num("n", -5).val("rotl", impl::rotl(x, -5)).val("rotr", T(r.rotr5));
+        e.str("form", "constexpr").str("inst", tname<T>()).end();
+    }
+}
+template <class T, size_t N> struct CETable {
+    T x[N];
+    BitsCE r[N];
+};
+constexpr auto make_ce8()
+{
+    CETable<uint8_t, 256> t {};
+    for (unsigned i = 0; i < 256; ++i) {
+        t.x[i] = uint8_t(i);
+        t.r[i] = bits_ce<uint8_t>(uint8_t(i));
+    }
+    return t;
+}
+template <class T> constexpr auto make_ce_wide()
+{
+    constexpr size_t N = sizeof(T) * 8 * 3 + 6;
+    CETable<T, N> t {};
+    size_t k = 0;
+    for (unsigned b = 0; b < sizeof(T) * 8; ++b) {
+        T const one = T(T(1) << b);
+        t.x[k++]    = one;
+        t.x[k++]    = T(one - 1);
+        t.x[k++]    = T(~one);
+    }
+    t.x[k++] = T(0);
+    t.x[k++] = T(~T(0));
+    t.x[k++] = T(0x1234);
+    t.x[k++] = T(0xF0A5C3E1u);
+    t.x[k++] = T(0x8001u);
+    t.x[k++] = T(T(0x9ABCDEF0u) * T(0x10001u) + 5u);
+    for (size_t i = 0; i < N; ++i) { t.r[i] = bits_ce<T>(t.x[i]); }
+    return t;
+}
+template <class Tab> void emit_ce_table(Tab const& t)
+{
+    for (size_t i = 0; i < sizeof(t.x) / sizeof(t.x[0]); ++i) { emit_bits_ce(t.x[i], t.r[i]); }
+}
+
 template <class T> void ev_bswap(T x)
 {
     Ev e("bswap");
@@ -400,28 +486,39 @@ template <class T> void ev_abs(T x)
     e.type(Tag<T>{}).val("x", x).val("ret", impl::abs(x)).str("inst", tname<T>()).end();
 }
 
-template <class To, class From> void ev_cast(From x)
+template <class To, class From> void put_cast(Ev& e, From x, bool first)
 {
-    {
-        Ev e("sat_cast");
-        e.type(Tag<From>{}).rtype(Tag<To>{}).val("x", x).val("ret", impl::saturate_cast<To>(x)).end();
-    }
-    {
-        Ev e("in_range");
-        e.type(Tag<From>{}).rtype(Tag<To>{}).val("x", x).flag("ret", impl::in_range<To>(x)).end();
-    }
+    if (!first) { g_out += ','; }
+    g_out += '[';
+    g_out += std::to_string(W<To>);
+    g_out += ',';
+    g_out += std::to_string(S<To>);
+    g_out += ',';
+    e.raw(impl::saturate_cast<To>(x));
+    g_out += impl::in_range<To>(x) ? ",true]" : ",false]";
 }
 
+// saturate_cast and in_range of one value to every target type, as one grouped event
 template <class From> void ev_cast_all(From x)
 {
-    ev_cast<uint8_t>(x);
-    ev_cast<int8_t>(x);
-    ev_cast<uint16_t>(x);
-    ev_cast<int16_t>(x);
-    ev_cast<uint32_t>(x);
-    ev_cast<int32_t>(x);
-    ev_cast<uint64_t>(x);
-    ev_cast<int64_t>(x);
+    Ev e("casts");
+    e.type(Tag<From>{}).val("x", x);
+    e.key("to");
+    g_out += '[';
+    put_cast<uint8_t>(e, x, true);
+    put_cast<int8_t>(e, x, false);
+    put_cast<uint16_t>(e, x, false);
+    put_cast<int16_t>(e, x, false);
+    put_cast<uint32_t>(e, x, false);
+    put_cast<int32_t>(e, x, false);
+    put_cast<uint64_t>(e, x, false);
+    put_cast<int64_t>(e, x, false);
+    if constexpr (sizeof(From) == 8) {
+        put_cast<unsigned long long>(e, x, false);
+        put_cast<long long>(e, x, false);
+    }
+    g_out += ']';
+    e.str("inst", tname<From>()).end();
 }
 
 template <class T> void ev_bin1(char const* op, T x, T y, T r, bool trapped = false)
@@ -570,7 +667,7 @@ template <class T> void binary_all(T x, T y, bool with_ipow)
 }
 
 // the mixed-type functions on one pair, as one grouped event "mix"
-template <class M, class N> void mixed_all(M m, N n)
+template <class M, class N> void mixed_pair(M m, N n)
 {
     using R = decltype(impl::gcd(m, n));
     static_assert(std::is_same_v<R, decltype(impl::lcm(m, n))>);
@@ -621,6 +718,10 @@ int replay8(std::string const& path)
         auto const m = j.at("m").get<std::string>();
         int const a  = j.at("a").get<int>();
         if (m == "un") {
+            if (a == 0) {
+                static constexpr auto ce8 = make_ce8();
+                emit_ce_table(ce8);
+            }
             unary_all<uint8_t>(uint8_t(a));
             unary_all<int8_t>(int8_t(uint8_t(a)));
             for (unsigned p = 0; p < 8; ++p) {
@@ -633,8 +734,8 @@ int replay8(std::string const& path)
             auto const ia = int8_t(ua), ib = int8_t(ub);
             binary_all<uint8_t>(ua, ub, true);
             binary_all<int8_t>(ia, ib, true);
-            mixed_all<uint8_t, int8_t>(ua, ib);
-            mixed_all<int8_t, uint8_t>(ia, ub);
+            mixed_pair<uint8_t, int8_t>(ua, ib);
+            mixed_pair<int8_t, uint8_t>(ia, ub);
         } else if (m == "rot") {
             ev_rot<uint8_t>(uint8_t(a), j.at("b").get<int>());
         } else {
@@ -646,14 +747,15 @@ int replay8(std::string const& path)
 }
 
 // ---- mode sweep16 -----------------------------------------------------------------------------------------
-// boundary grid of 16-bit patterns (as signed: 0, 1, 2, 3, 127, 128, 255, 256, max, min, min+1, -2, -1 ...)
+// boundary grid of 16-bit patterns (as signed: 0, 1, 2, 3, 7, 127, 128, 255, 256, max-1, max, min, min+1, -256, -2, -1)
 unsigned const G16[] = {0, 1, 2, 3, 7, 0x7F, 0x80, 0xFF, 0x100, 0x7FFE, 0x7FFF, 0x8000, 0x8001, 0xFF00, 0xFFFE, 0xFFFF};
 int const SMALL_EXP[] = {0, 1, 2, 3, 4, 5, 7, 8, 14, 15, 16, 17};
 
 int sweep16(bool thorough, unsigned part, unsigned nparts, uint64_t seed)
 {
     vh::Rng rng(seed + 77);
-    // x values of this part: every value (thorough) or the grid, a stride sample and seeded random values (quick)
+    // x values of this part: every value (thorough) or the grid, the bit patterns, a stride sample and seeded
+    // random values (quick)
     std::vector<unsigned> xs;
     if (thorough) {
         for (unsigned x = 0; x < 65536; ++x) {
@@ -668,22 +770,24 @@ int sweep16(bool thorough, unsigned part, unsigned nparts, uint64_t seed)
             all.push_back(((1u << b) + 1) & 0xFFFF);
             all.push_back((~(1u << b)) & 0xFFFF);
         }
-        for (unsigned x = 5; x < 65536; x += 257) { all.push_back(x); }
-        for (int k = 0; k < 200; ++k) { all.push_back(unsigned(rng.next() & 0xFFFF)); }
+        for (unsigned x = 5; x < 65536; x += 1021) { all.push_back(x); }
+        for (int k = 0; k < 60; ++k) { all.push_back(unsigned(rng.next() & 0xFFFF)); }
         for (size_t k = 0; k < all.size(); ++k) {
             if (k % nparts == part) { xs.push_back(all[k]); }
         }
     }
-    // unary: in the quick tier the bit functions still see every 16-bit value
+    // the bit functions see every 16-bit value in both tiers
     for (unsigned x = 0; x < 65536; ++x) {
         if (x % nparts != part) { continue; }
         ev_bits<uint16_t>(uint16_t(x));
-        ev_bswap<uint16_t>(uint16_t(x));
-        ev_hton<uint16_t>(uint16_t(x));
     }
+    size_t k = 0;
     for (unsigned x : xs) {
+        ++k;
         auto const u = uint16_t(x);
         auto const i = int16_t(u);
+        ev_bswap<uint16_t>(u);
+        ev_hton<uint16_t>(u);
         ev_bswap<int16_t>(i);
         ev_ilog2<uint16_t>(u);
         ev_ilog2<int16_t>(i);
@@ -691,39 +795,45 @@ int sweep16(bool thorough, unsigned part, unsigned nparts, uint64_t seed)
         ev_abs<int16_t>(i);
         ev_cast_all<uint16_t>(u);
         ev_cast_all<int16_t>(i);
-        for (int n : {-130, -33, -17, -16, -15, -1, 0, 1, 7, 8, 15, 16, 17, 31, 32, 130}) { ev_rot<uint16_t>(u, n); }
-        for (unsigned p : {0u, 1u, 7u, 8u, 14u, 15u}) {
-            ev_bitpos<uint16_t>(u, p, false);
-            ev_bitpos<uint16_t>(u, p, true);
-        }
-        for (unsigned g : G16) {
+        int const counts[] = {-130, -33, -17, -16, -15, -1, 0, 1, 7, 8, 15, 16, 17, 31, 32, 130};
+        unsigned const poss[] = {0u, 1u, 7u, 8u, 14u, 15u};
+        for (size_t c = 0; c < 4; ++c) { ev_rot<uint16_t>(u, counts[(k * 4 + c) % 16]); }
+        ev_bitpos<uint16_t>(u, poss[k % 6], false);
+        ev_bitpos<uint16_t>(u, poss[(k + 3) % 6], true);
+        for (size_t gi = 0; gi < 16; ++gi) {
+            // thorough: every value against the 6 outermost grid points (0, 1, max, min, -2, -1); quick: the sample against all 16
+            if (thorough and not(gi < 2 or gi == 10 or gi == 11 or gi >= 14)) { continue; }
+            unsigned const g = G16[gi];
             auto const ug = uint16_t(g);
             auto const ig = int16_t(ug);
             binary_all<uint16_t>(u, ug, false);
             binary_all<uint16_t>(ug, u, false);
             binary_all<int16_t>(i, ig, false);
             binary_all<int16_t>(ig, i, false);
-            ev_cmp<uint16_t, int16_t>(u, ig);
-            ev_cmp<int16_t, uint16_t>(i, ug);
-            ev_cmp<uint16_t, int16_t>(ug, i);
-            ev_cmp<int16_t, uint16_t>(ig, u);
+            mixed_pair<uint16_t, int16_t>(u, ig);
+            mixed_pair<int16_t, uint16_t>(i, ug);
+            if (!thorough) {
+                mixed_pair<uint16_t, int16_t>(ug, i);
+                mixed_pair<int16_t, uint16_t>(ig, u);
+            }
         }
-        for (unsigned g : {0u, 1u, 6u, 0x7FFFu, 0x8000u, 0xFFFFu}) {
-            ev_gcd<uint16_t, int16_t>(u, int16_t(uint16_t(g)));
-            ev_gcd<int16_t, uint16_t>(i, uint16_t(g));
-            ev_lcm<uint16_t, int16_t>(u, int16_t(uint16_t(g)));
-            ev_lcm<int16_t, uint16_t>(i, uint16_t(g));
-            ev_gcd<uint8_t, int16_t>(uint8_t(g), i);
-            ev_gcd<int16_t, uint8_t>(i, uint8_t(g));
-            ev_lcm<uint8_t, uint16_t>(uint8_t(g), u);
+        for (unsigned g : {0u, 1u, 6u, 0x7Fu, 0x80u, 0xFFu}) {
+            if (thorough and (g + k) % 3 != 0) { continue; }
+            mixed_pair<uint8_t, int16_t>(uint8_t(g), i);
+            mixed_pair<int16_t, uint8_t>(i, uint8_t(g));
+            mixed_pair<int8_t, uint16_t>(int8_t(uint8_t(g)), u);
+            mixed_pair<uint16_t, int8_t>(u, int8_t(uint8_t(g)));
         }
-        for (int e : SMALL_EXP) {
-            ev_ipow<uint16_t>(u, uint16_t(e));
-            ev_ipow<int16_t>(i, int16_t(e));
+        for (size_t ei = 0; ei < 12; ++ei) {
+            if (thorough and (ei + k) % 2 == 0) { continue; }
+            ev_ipow<uint16_t>(u, uint16_t(SMALL_EXP[ei]));
+            ev_ipow<int16_t>(i, int16_t(SMALL_EXP[ei]));
         }
     }
-    // rotation: a sample of words with every count in [-130, 130]; single-bit positions with every word sample
+    // rotation: a sample of words with every count in [-130, 130]; every bit position; ipow<Base>
     if (part == 0) {
+        static constexpr auto ce16 = make_ce_wide<uint16_t>();
+        emit_ce_table(ce16);
         for (unsigned x : {0x0001u, 0x8000u, 0x8001u, 0x1234u, 0xF0A5u, 0xFFFEu, 0x7FFFu, 0xFFFFu, 0u}) {
             for (int n = -130; n <= 130; ++n) { ev_rot<uint16_t>(uint16_t(x), n); }
             for (unsigned p = 0; p < 16; ++p) {
@@ -747,18 +857,20 @@ int sweep16(bool thorough, unsigned part, unsigned nparts, uint64_t seed)
 }
 
 // ---- mode wide: 32/64-bit types ---------------------------------------------------------------------------
-template <class T> std::vector<T> wide_values(vh::Rng& rng, int nrand)
+template <class T> std::vector<T> wide_values(vh::Rng& rng, int nrand, int bitstep)
 {
     using U = std::make_unsigned_t<T>;
     std::vector<T> v;
     for (int b = 0; b < W<T>; ++b) {
         U const one = U(U(1) << b);
-        v.push_back(T(one));             // every single bit
-        v.push_back(T(U(one - 1)));      // all ones below the bit
-        v.push_back(T(U(one + 1)));      // +1 neighbour
-        v.push_back(T(U(~one)));         // every single zero
-        v.push_back(T(U(U(0) - one)));   // all ones from the bit upwards (-2^b)
-        v.push_back(T(U(one | (one >> 1))));
+        v.push_back(T(one));            // every single bit
+        v.push_back(T(U(one - 1)));     // all ones below the bit
+        v.push_back(T(U(one + 1)));     // +1 neighbour
+        if (b % bitstep == 0 or b >= W<T> - 2 or b == W<T> / 2 or b == W<T> / 2 - 1 or b == 15 or b == 16) {
+            v.push_back(T(U(~one)));            // a single zero
+            v.push_back(T(U(U(0) - one)));      // all ones from the bit upwards (-2^b)
+            v.push_back(T(U(one | (one >> 1))));
+        }
     }
     T const lim[] = {std::numeric_limits<T>::min(), std::numeric_limits<T>::max(), T(std::numeric_limits<T>::min() + 1),
                      T(std::numeric_limits<T>::max() - 1), T(0), T(1), T(2), T(3), T(U(0) - 1), T(U(0) - 2), T(10), T(100), T(255), T(256)};
@@ -767,65 +879,98 @@ template <class T> std::vector<T> wide_values(vh::Rng& rng, int nrand)
         U r = U(rng.next());
         switch (k % 4) {
         case 0: break;
-        case 1: r = U(r >> (rng.next() % W<T>)); break;          // random number of leading zeros
-        case 2: r = U(r << (rng.next() % W<T>)); break;          // random number of trailing zeros
-        default: r = U(~U(r >> (rng.next() % W<T>))); break;     // random number of leading ones
+        case 1: r = U(r >> (rng.next() % W<T>)); break;         // random number of leading zeros
+        case 2: r = U(r << (rng.next() % W<T>)); break;         // random number of trailing zeros
+        default: r = U(~U(r >> (rng.next() % W<T>))); break;    // random number of leading ones
         }
         v.push_back(T(r));
     }
     return v;
 }
 
-template <class T> std::vector<T> wide_boundary()
+template <class T> std::vector<T> wide_boundary(bool small)
 {
     using U = std::make_unsigned_t<T>;
-    std::vector<T> v = {T(0), T(1), T(2), T(3), T(U(0) - 1), T(U(0) - 2), std::numeric_limits<T>::min(),
-                        std::numeric_limits<T>::max(), T(std::numeric_limits<T>::min() + 1),
-                        T(std::numeric_limits<T>::max() - 1), T(6), T(10), T(255), T(256), T(32767), T(32768), T(65535), T(65536),
-                        T(U(1) << (W<T> - 2)), T(U(1) << (W<T> / 2)), T((U(1) << (W<T> / 2)) - 1), T(U(3) << (W<T> - 3)),
-                        T(U(0) - 6), T(U(0) - 65536)};
+    std::vector<T> v = {T(0), T(1), T(2), T(U(0) - 1), T(U(0) - 2), std::numeric_limits<T>::min(), std::numeric_limits<T>::max(),
+                        T(std::numeric_limits<T>::min() + 1), T(6), T(65536), T(U(1) << (W<T> - 2)), T((U(1) << (W<T> / 2)) - 1),
+                        T(U(0) - 6)};
+    if (!small) {
+        for (T x : {T(3), T(std::numeric_limits<T>::max() - 1), T(10), T(255), T(256), T(32767), T(32768), T(65535),
+                    T(U(1) << (W<T> / 2)), T(U(3) << (W<T> - 3)), T(U(0) - 65536)}) {
+            v.push_back(x);
+        }
+    }
     return v;
 }
 
-template <class T> void wide_type(bool thorough, uint64_t seed)
+// level: 0 = light (the long long twins of the 64-bit types in the quick tier), 1 = quick, 2 = thorough
+template <class T> void wide_type(int level, uint64_t seed)
 {
     using U = std::make_unsigned_t<T>;
     vh::Rng rng(seed * 1000 + W<T> * 2 + S<T>);
-    int const nrand = thorough ? 3000 : 300;
-    auto const vals = wide_values<T>(rng, nrand);
-    auto const bnd  = wide_boundary<T>();
-    for (T x : vals) {
-        unary_all<T>(x);
+    bool const thorough = level == 2;
+    int const nrand     = thorough ? 1200 : (level == 1 ? 40 : 16);
+    auto const vals     = wide_values<T>(rng, nrand, thorough ? 1 : (level == 1 ? 8 : 32));
+    auto const bnd      = wide_boundary<T>(!thorough);
+    int const counts[]  = {-130, -65, -64, -63, -33, -32, -31, -1, 0, 1, 13, 31, 32, 33, 63, 64, 65, 130};
+    unsigned const poss[] = {0u, 1u, 15u, 16u, 31u, unsigned(W<T> - 1), unsigned(W<T> / 2)};
+    T const ys[]        = {T(0), T(1), T(U(0) - 1), std::numeric_limits<T>::min(), std::numeric_limits<T>::max(), T(2), T(3)};
+    size_t step         = level == 0 ? 4 : 1;
+    for (size_t k = 0; k < vals.size(); k += step) {
+        T const x = vals[k];
+        if constexpr (std::is_unsigned_v<T>) { ev_bits<T>(x); }
+        ev_bswap<T>(x);
+        ev_ilog2<T>(x);
+        ev_abs<T>(x);
+        if constexpr (std::is_same_v<T, uint32_t>) { ev_hton<T>(x); }
+        if (thorough or k % 3 == 0) { ev_cast_all<T>(x); }
         if constexpr (std::is_unsigned_v<T>) {
-            for (int n : {-130, -65, -64, -63, -33, -32, -31, -1, 0, 1, 13, 31, 32, 33, 63, 64, 65, 130}) { ev_rot<T>(x, n); }
-            for (unsigned p : {0u, 1u, 15u, 16u, 31u, unsigned(W<T> - 1), unsigned(W<T> / 2)}) {
-                ev_bitpos<T>(x, p, false);
-                ev_bitpos<T>(x, p, true);
+            if (thorough) {
+                for (int n : counts) { ev_rot<T>(x, n); }
+                for (unsigned p : poss) {
+                    ev_bitpos<T>(x, p, false);
+                    ev_bitpos<T>(x, p, true);
+                }
+            } else {
+                for (size_t c = 0; c < 3; ++c) { ev_rot<T>(x, counts[(k * 3 + c) % 18]); }
+                ev_bitpos<T>(x, poss[k % 7], false);
+                ev_bitpos<T>(x, poss[(k + 3) % 7], true);
             }
         }
+        // binary: every value against boundaries (all seven in both orders when thorough), and another value
+        if (thorough) {
+            for (T y : ys) {
+                binary_all<T>(x, y, false);
+                binary_all<T>(y, x, false);
+            }
+        } else if (k % 2 == 0) {
+            binary_all<T>(x, ys[(k / 2) % 7], false);
+        } else {
+            binary_all<T>(ys[(k / 2) % 7], x, false);
+        }
+        if (thorough or k % 3 == 1) { binary_all<T>(x, vals[(k * 7 + 3) % vals.size()], false); }
     }
     if constexpr (std::is_unsigned_v<T>) {
-        for (T x : {T(1), T(U(1) << (W<T> - 1)), T(0x12345678u), T(U(0) - 2), T(U(0x9ABCDEF0u) * U(0x10001u) + 5u)}) {
-            for (int n = -130; n <= 130; ++n) { ev_rot<T>(x, n); }
-            for (unsigned p = 0; p < unsigned(W<T>); ++p) {
-                ev_bitpos<T>(x, p, false);
-                ev_bitpos<T>(x, p, true);
+        static constexpr auto cew = make_ce_wide<T>();
+        emit_ce_table(cew);
+        if (level > 0) {
+            for (T x : {T(1), T(U(1) << (W<T> - 1)), T(0x12345678u), T(U(0) - 2), T(U(0x9ABCDEF0u) * U(0x10001u) + 5u)}) {
+                for (int n = -130; n <= 130; n += (thorough ? 1 : 3)) { ev_rot<T>(x, n); }
+                for (unsigned p = 0; p < unsigned(W<T>); p += (thorough ? 1 : 3)) {
+                    ev_bitpos<T>(x, p, false);
+                    ev_bitpos<T>(x, p, true);
+                }
             }
         }
     }
-    // binary: boundary x boundary, every value against a few boundaries, structured and random pairs
-    for (T x : bnd) {
-        for (T y : bnd) { binary_all<T>(x, y, false); }
-    }
-    for (size_t k = 0; k < vals.size(); ++k) {
-        T const x = vals[k];
-        for (T y : {T(0), T(1), T(U(0) - 1), std::numeric_limits<T>::min(), std::numeric_limits<T>::max(), T(2), T(3)}) {
-            binary_all<T>(x, y, false);
-            binary_all<T>(y, x, false);
+    // boundary x boundary
+    if (level > 0) {
+        for (T x : bnd) {
+            for (T y : bnd) { binary_all<T>(x, y, false); }
         }
-        binary_all<T>(x, vals[(k * 7 + 3) % vals.size()], false);
     }
-    int const npairs = thorough ? 6000 : 600;
+    // structured and random pairs
+    int const npairs = thorough ? 3000 : (level == 1 ? 180 : 48);
     int const half   = W<T> / 2;
     for (int k = 0; k < npairs; ++k) {
         U a = U(rng.next()), b = U(rng.next());
@@ -863,40 +1008,48 @@ template <class T> void wide_type(bool thorough, uint64_t seed)
         }
         binary_all<T>(x, y, false);
     }
-    // powers: every base from the boundary list and small bases against small exponents
+    // powers: boundary bases and small bases against exponents around every interesting size
+    // (a negative exponent converted to an unsigned type would make the loop of ipow run "forever")
     std::vector<T> bases = bnd;
     for (int b = -12; b <= 12; ++b) { bases.push_back(T(b)); }
+    int const exps[] = {-1, 0, 1, 2, 3, 5, 8, 15, 16, 20, 21, 31, 32, 33, 40, 62, 63, 64, 65};
     for (T b : bases) {
-        // (a negative exponent converted to an unsigned type would make the loop of ipow run "forever")
-        for (int e = std::is_signed_v<T> ? -1 : 0; e <= 66; ++e) { ev_ipow<T>(b, T(e)); }
-    }
-}
-
-template <class A, class B> void mixed_pair_type(uint64_t seed)
-{
-    auto const va = wide_boundary<A>();
-    auto const vb = wide_boundary<B>();
-    for (A x : va) {
-        for (B y : vb) {
-            ev_cmp<A, B>(x, y);
-            ev_gcd<A, B>(x, y);
-            ev_lcm<A, B>(x, y);
+        if (thorough) {
+            for (int e = std::is_signed_v<T> ? -1 : 0; e <= 66; ++e) { ev_ipow<T>(b, T(e)); }
+        } else if (level > 0) {
+            for (int e : exps) {
+                if (e >= 0 or std::is_signed_v<T>) { ev_ipow<T>(b, T(e)); }
+            }
         }
     }
 }
-template <class A, class... Bs> void mixed_row(uint64_t seed) { (mixed_pair_type<A, Bs>(seed), ...); }
-template <class... Ts> void mixed_all(uint64_t seed) { (mixed_row<Ts, Ts...>(seed), ...); }
+
+template <class A, class B> void mixed_pair_type(bool thorough)
+{
+    auto va = wide_boundary<A>(!thorough);
+    auto vb = wide_boundary<B>(!thorough);
+    if (!thorough) {
+        va.resize(8);
+        vb.resize(8);
+    }
+    for (A x : va) {
+        for (B y : vb) { mixed_pair<A, B>(x, y); }
+    }
+}
+template <class A, class... Bs> void mixed_row(bool thorough) { (mixed_pair_type<A, Bs>(thorough), ...); }
+template <class... Ts> void mixed_all(bool thorough) { (mixed_row<Ts, Ts...>(thorough), ...); }
 
 int wide(bool thorough, std::string const& which, uint64_t seed)
 {
-    if (which == "u32") { wide_type<uint32_t>(thorough, seed); }
-    else if (which == "i32") { wide_type<int32_t>(thorough, seed); }
-    else if (which == "u64") { wide_type<uint64_t>(thorough, seed); }
-    else if (which == "i64") { wide_type<int64_t>(thorough, seed); }
-    else if (which == "ull") { wide_type<unsigned long long>(thorough, seed); }
-    else if (which == "ll") { wide_type<long long>(thorough, seed); }
+    int const level = thorough ? 2 : 1;
+    if (which == "u32") { wide_type<uint32_t>(level, seed); }
+    else if (which == "i32") { wide_type<int32_t>(level, seed); }
+    else if (which == "u64") { wide_type<uint64_t>(level, seed); }
+    else if (which == "i64") { wide_type<int64_t>(level, seed); }
+    else if (which == "ull") { wide_type<unsigned long long>(thorough ? 1 : 0, seed); }
+    else if (which == "ll") { wide_type<long long>(thorough ? 1 : 0, seed); }
     else if (which == "mixed") {
-        mixed_all<uint8_t, int8_t, uint16_t, int16_t, uint32_t, int32_t, uint64_t, int64_t>(seed);
+        mixed_all<uint8_t, int8_t, uint16_t, int16_t, uint32_t, int32_t, uint64_t, int64_t>(thorough);
         for (int e = -2; e <= 66; ++e) {
             ev_ipow_t<2>(e);
             ev_ipow_t<3>(e);
@@ -966,7 +1119,7 @@ int main(int argc, char** argv)
     Args a {argc, argv, 2};
     pthread_attr_t at;
     pthread_attr_init(&at);
-    pthread_attr_setstacksize(&at, 1 << 20);
+    pthread_attr_setstacksize(&at, 1 << 18);
     pthread_t th;
     if (pthread_create(&th, &at, work, &a) != 0) { return 2; }
     pthread_join(th, nullptr);
